@@ -148,6 +148,20 @@ def cfg_kinds(s):
     return "|".join(x.split(":")[0] for x in s.split("|"))
 
 
+KIND_CLASS = {"ct": "const", "lit": "const", "tt": "const", "clt": "clipped", "cla": "clipped", "clv": "clipped", "cl": "clipped",
+              "fx": "fixed", "raw": "fixed", "tp": "fixed", "mfx": "maybe", "mdy": "maybe", "sv": "bounded", "hy": "bounded",
+              "dy": "dynamic", "rt": "runtime", "b": "runtime", "none": "none", "cx": "constexpr"}
+
+
+def cfg_class(s):
+    """coarse class signature of a configuration (used in violation keys so that one defect = few keys)"""
+    out = []
+    for x in s.split("|"):
+        k = x.split(":")[0]
+        out.append(KIND_CLASS.get(k, k))
+    return "|".join(out)
+
+
 # ----------------------------------------------------------------------------------------------------
 # C++ emission of one argument
 # ----------------------------------------------------------------------------------------------------
@@ -369,6 +383,9 @@ class Op:
 
 
 OPS = {}
+# configurations always included for an operation (those in which a defect of the unchanged tree lives, so that its
+# key is observed under every seed)
+PINNED = {}
 
 
 def op(*a, **kw):
@@ -411,7 +428,7 @@ def _o_transpose(v):
 
 
 op("shape_transpose", ["nmtools/array/index/transpose.hpp"], [IA("shape"), IA("axes", optional=True)],
-   "ix::shape_transpose({shape},{axes})", [(n, f) for n in (1, 2, 3, 4) for f in (False, True)], _g_transpose, _o_transpose)
+   "ix::shape_transpose({shape},{axes})", [(2, False), (3, False), (4, False), (2, True), (3, True)], _g_transpose, _o_transpose)
 
 # --- shape_reshape(src, dst) with one optional -1
 
@@ -454,7 +471,7 @@ def _o_reshape(v):
 
 
 op("shape_reshape", ["nmtools/array/index/reshape.hpp"], [IA("src"), IA("dst", signed=True, lo=-1)],
-   "ix::shape_reshape({src},{dst})", [(n, m, f) for n in (1, 2, 3) for m in (1, 2, 3) for f in (False, True)], _g_reshape, _o_reshape)
+   "ix::shape_reshape({src},{dst})", [(1, 2, False), (2, 1, False), (2, 2, False), (3, 2, False), (2, 3, True), (3, 3, True)], _g_reshape, _o_reshape)
 
 # --- broadcast_shape(a, b)
 
@@ -495,7 +512,7 @@ def _o_bshape(v):
 
 
 op("broadcast_shape", ["nmtools/array/index/broadcast_shape.hpp"], [IA("a"), IA("b")],
-   "ix::broadcast_shape({a},{b})", [(n, m) for n in (1, 2, 3) for m in (1, 2, 3)], _g_bshape, _o_bshape)
+   "ix::broadcast_shape({a},{b})", [(2, 2), (1, 3), (3, 2), (3, 3)], _g_bshape, _o_bshape)
 
 
 def _g_bshape3(rng, dims, primary=None):
@@ -515,7 +532,7 @@ def _o_bshape3(v):
 
 
 op("broadcast_shape3", ["nmtools/array/index/broadcast_shape.hpp"], [IA("a"), IA("b"), IA("c")],
-   "ix::broadcast_shape({a},{b},{c})", [(1, 2, 3), (2, 2, 2), (3, 1, 2), (2, 3, 3)], _g_bshape3, _o_bshape3)
+   "ix::broadcast_shape({a},{b},{c})", [(1, 2, 3), (2, 2, 2)], _g_bshape3, _o_bshape3)
 
 # --- shape_broadcast_to(a, b) -> (success, shape, free_axes)?  normalised by the check: success + shape
 
@@ -544,7 +561,7 @@ def _o_bto(v):
 
 
 op("shape_broadcast_to", ["nmtools/array/index/broadcast_to.hpp"], [IA("a"), IA("b")],
-   "ix::shape_broadcast_to({a},{b})", [(n, m) for n in (1, 2, 3) for m in (1, 2, 3) if m >= n], _g_bto, _o_bto, norm="bto")
+   "ix::shape_broadcast_to({a},{b})", [(1, 2), (2, 2), (2, 3), (3, 3)], _g_bto, _o_bto, norm="bto")
 
 # --- normalize_axis(axis(array), ndim)
 
@@ -600,11 +617,11 @@ def _strides(s):
 
 
 op("compute_strides", ["nmtools/array/index/compute_strides.hpp"], [IA("shape")],
-   "ix::compute_strides({shape})", [(1,), (2,), (3,), (4,)],
+   "ix::compute_strides({shape})", [(2,), (3,), (4,)],
    lambda rng, d, primary=None: dict(shape=primary or rshape(rng, d[0])), lambda v: V(_strides(v["shape"])))
 
 op("product", ["nmtools/array/index/product.hpp"], [IA("shape")],
-   "ix::product({shape})", [(1,), (2,), (3,), (4,)],
+   "ix::product({shape})", [(1,), (3,), (4,)],
    lambda rng, d, primary=None: dict(shape=primary or rshape(rng, d[0])), lambda v: I(int(np.prod(v["shape"]))))
 
 
@@ -614,7 +631,7 @@ def _g_cind(rng, dims, primary=None):
 
 
 op("compute_indices", ["nmtools/array/index/compute_indices.hpp"], [IS("offset"), IA("shape")],
-   "ix::compute_indices({offset},{shape})", [(1,), (2,), (3,), (4,)], _g_cind,
+   "ix::compute_indices({offset},{shape})", [(2,), (3,), (4,)], _g_cind,
    lambda v: V(np.unravel_index(v["offset"], v["shape"])))
 
 
@@ -626,7 +643,7 @@ def _g_coff(rng, dims, primary=None):
 
 
 op("compute_offset", ["nmtools/array/index/compute_offset.hpp"], [IA("indices"), IA("strides")],
-   "ix::compute_offset({indices},{strides})", [(1,), (2,), (3,), (4,)], _g_coff,
+   "ix::compute_offset({indices},{strides})", [(2,), (3,), (4,)], _g_coff,
    lambda v: I(sum(a * b for a, b in zip(v["indices"], v["strides"]))))
 
 # --- shape_tile(shape, reps)
@@ -642,7 +659,7 @@ def _o_tile(v):
 
 
 op("shape_tile", ["nmtools/array/index/tile.hpp"], [IA("shape"), IA("reps")],
-   "ix::shape_tile({shape},{reps})", [(n, m) for n in (1, 2, 3) for m in (1, 2, 3)], _g_tile, _o_tile)
+   "ix::shape_tile({shape},{reps})", [(1, 2), (2, 2), (3, 1), (2, 3), (3, 3)], _g_tile, _o_tile)
 
 # --- shape_repeat(shape, repeats(scalar|array), axis|None)
 
@@ -672,7 +689,7 @@ def _o_repeat(v):
 
 
 op("shape_repeat", ["nmtools/array/index/repeat.hpp"], [IA("shape"), IS("repeats"), IS("axis", optional=True)],
-   "ix::shape_repeat({shape},{repeats},{axis})", [(n, f) for n in (1, 2, 3) for f in (0, 1)], _g_repeat, _o_repeat)
+   "ix::shape_repeat({shape},{repeats},{axis})", [(1, 0), (2, 0), (3, 0), (2, 1), (3, 1)], _g_repeat, _o_repeat)
 
 # --- shape_pad(shape, pad_width[begin..., end...])
 
@@ -724,7 +741,7 @@ def _o_concat(v):
 
 
 op("shape_concatenate", ["nmtools/array/index/concatenate.hpp"], [IA("a"), IA("b"), IS("axis", optional=True)],
-   "ix::shape_concatenate({a},{b},{axis})", [(n, f) for n in (1, 2, 3) for f in (False, True)], _g_concat, _o_concat, norm="flag_tuple")
+   "ix::shape_concatenate({a},{b},{axis})", [(1, False), (2, False), (3, False), (2, True)], _g_concat, _o_concat, norm="flag_tuple")
 
 # --- remove_dims(shape, axis (scalar|array), keepdims)
 
@@ -804,7 +821,7 @@ def _o_matmul(v):
 
 
 op("shape_matmul", ["nmtools/array/view/matmul.hpp"], [IA("a"), IA("b")],
-   "ix::shape_matmul({a},{b})", [(n, m) for n in (1, 2, 3, 4) for m in (1, 2, 3, 4) if (n, m) not in ((1, 1),)], _g_matmul, _o_matmul, weight=2)
+   "ix::shape_matmul({a},{b})", [(2, 2), (3, 2), (2, 3), (3, 3), (2, 1), (1, 2), (4, 3)], _g_matmul, _o_matmul, weight=2)
 
 # --- shape_expand_dims(shape, axes)
 
@@ -824,7 +841,7 @@ def _o_expand(v):
 
 
 op("shape_expand_dims", ["nmtools/array/index/expand_dims.hpp"], [IA("shape"), IA("axes")],
-   "ix::shape_expand_dims({shape},{axes})", [(n, k) for n in (1, 2, 3) for k in (1, 2)], _g_expand, _o_expand)
+   "ix::shape_expand_dims({shape},{axes})", [(1, 1), (2, 1), (2, 2), (3, 1)], _g_expand, _o_expand)
 
 # --- shape_squeeze(shape)
 
@@ -837,11 +854,11 @@ def _g_squeeze(rng, dims, primary=None):
 
 def _o_squeeze(v):
     r = [e for e in v["shape"] if e != 1]
-    return V(r if r else [1])
+    return V(r)
 
 
 op("shape_squeeze", ["nmtools/array/index/squeeze.hpp"], [IA("shape")], "ix::shape_squeeze({shape})",
-   [(1,), (2,), (3,), (4,)], _g_squeeze, _o_squeeze)
+   [(2,), (3,), (4,)], _g_squeeze, _o_squeeze)
 
 # --- shape_resize(src, dst)  /  shape_roll? / shape_atleast_nd(shape, nd)
 
@@ -883,7 +900,7 @@ def _o_moveaxis(v):
 
 
 op("moveaxis_to_transpose", ["nmtools/array/index/moveaxis.hpp"], [IA("shape"), IA("source", signed=True, lo=-5), IA("destination", signed=True, lo=-5)],
-   "ix::moveaxis_to_transpose({shape},{source},{destination})", [(2, 1), (3, 1), (3, 2), (4, 2)], _g_moveaxis, _o_moveaxis)
+   "ix::moveaxis_to_transpose({shape},{source},{destination})", [(2, 1), (3, 1), (3, 2)], _g_moveaxis, _o_moveaxis)
 
 # --- shape_outer(a, b), gather / scatter / reverse
 
@@ -894,7 +911,7 @@ def _g_two(rng, dims, primary=None):
 
 
 op("shape_outer", ["nmtools/array/index/outer.hpp"], [IA("a"), IA("b")], "ix::shape_outer({a},{b})",
-   [(n, m) for n in (1, 2, 3) for m in (1, 2, 3)], _g_two, lambda v: V(list(v["a"]) + list(v["b"])))
+   [(1, 1), (2, 1), (2, 2), (1, 3)], _g_two, lambda v: V(list(v["a"]) + list(v["b"])))
 
 
 def _g_gather(rng, dims, primary=None):
@@ -906,7 +923,7 @@ def _g_gather(rng, dims, primary=None):
 
 
 op("gather", ["nmtools/array/index/gather.hpp"], [IA("vec"), IA("indices")], "ix::gather({vec},{indices})",
-   [(1,), (2,), (3,), (4,)], _g_gather, lambda v: V(v["vec"][i] for i in v["indices"]))
+   [(2,), (3,), (4,)], _g_gather, lambda v: V(v["vec"][i] for i in v["indices"]))
 
 
 def _o_scatter(v):
@@ -917,10 +934,10 @@ def _o_scatter(v):
 
 
 op("scatter", ["nmtools/array/index/scatter.hpp"], [IA("vec"), IA("indices")], "ix::scatter({vec},{indices})",
-   [(1,), (2,), (3,), (4,)], _g_gather, _o_scatter)
+   [(2,), (3,), (4,)], _g_gather, _o_scatter)
 
 op("reverse", ["nmtools/array/index/reverse.hpp"], [IA("vec")], "ix::reverse({vec})",
-   [(1,), (2,), (3,), (4,)], lambda rng, d, primary=None: dict(vec=primary or rshape(rng, d[0])), lambda v: V(reversed(v["vec"])))
+   [(2,), (3,), (4,)], lambda rng, d, primary=None: dict(vec=primary or rshape(rng, d[0])), lambda v: V(reversed(v["vec"])))
 
 # --- shape_resize(src, dst)
 op("shape_resize", ["nmtools/array/index/resize.hpp"], [IA("a"), IA("b")], "ix::shape_resize({a},{b})",
@@ -930,24 +947,32 @@ op("shape_resize", ["nmtools/array/index/resize.hpp"], [IA("a"), IA("b")], "ix::
 
 
 def _g_free(rng, dims, primary=None):
+    # a = the broadcast (longer) shape, b = the original shape of interest
     n, m = dims
     m = max(n, m)
-    b = rshape(rng, m)
-    a = [x if rng.random() < 0.6 else 1 for x in b[m - n:]]
-    return dict(a=primary or a, b=b) if primary is None else _g_bto(rng, dims, primary)
+    if primary:
+        m = len(primary)
+        n = min(n, m)
+        a = list(primary)
+    else:
+        a = rshape(rng, m)
+    b = [x if rng.random() < 0.6 else 1 for x in a[m - n:]]
+    return dict(a=a, b=b)
 
 
 def _o_free(v):
     a, b = v["a"], v["b"]
-    if _o_bto(v) == NOTHING:
+    m, n = len(a), len(b)
+    if n > m:
         return INVALID
-    m, n = len(b), len(a)
-    pa = [None] * (m - n) + list(a)
-    return V(1 if (x is None or (x == 1 and y != 1)) else 0 for x, y in zip(pa, b))
+    pb = [None] * (m - n) + list(b)
+    if any(y is not None and y != 1 and y != x for x, y in zip(a, pb)):
+        return INVALID
+    return V(1 if (y is None or y == 1) else 0 for y in pb)
 
 
 op("free_axes", ["nmtools/array/index/free_axes.hpp"], [IA("a"), IA("b")], "ix::free_axes({a},{b})",
-   [(n, m) for n in (1, 2, 3) for m in (1, 2, 3) if m >= n], _g_free, _o_free, cx=False)
+   [(2, 1), (2, 2), (3, 2), (3, 3)], _g_free, _o_free, cx=False)
 
 # --- shape_slice(shape, slices...): slices are (start,stop) / (start,stop,step) tuples of run-time ints, integers or Ellipsis;
 #     the kind varies for the shape only.  The slice pattern is part of the signature.
@@ -1012,6 +1037,269 @@ def _o_slice(v, pat):
 SLICE_PATTERNS = [("t2",), ("t2", "t3"), ("i", "t2"), ("e", "t2"), ("n2", "nn"), ("t3", "e"), ("nn", "i", "t2")]
 
 
+
+# ----------------------------------------------------------------------------------------------------
+# view / evaluation operations (array operands of every kind)
+# ----------------------------------------------------------------------------------------------------
+
+VEXT = 3
+
+
+def A(shape, base):
+    return dict(shape=[int(x) for x in shape], base=base)
+
+
+def np_arr(a, T="int"):
+    n = int(np.prod(a["shape"]))
+    dt = {"int": np.int64, "long": np.int64, "float": np.float64, "double": np.float64}[T]
+    return (np.arange(n, dtype=dt) + a["base"]).reshape(a["shape"])
+
+
+def AR(x):
+    x = np.asarray(x)
+    if x.ndim == 0:
+        return ("S", x.item())
+    return ("A", [int(e) for e in x.shape], [e.item() for e in x.flatten()])
+
+
+def vshape(rng, n, ext=VEXT):
+    while True:
+        s = rshape(rng, n, ext)
+        if int(np.prod(s)) > 1 or n == 1 and rng.random() < 0.3:
+            return s
+
+
+def vop(name, headers, args, call, dims, gen, oracle, **kw):
+    return op(name, headers, args, call, dims, gen, oracle, family="view", result="view", cx=False, **kw)
+
+
+def _gv_transpose(rng, dims, primary=None):
+    n, none = dims
+    shape = primary or vshape(rng, n)
+    v = _g_transpose(rng, (len(shape), none), shape)
+    return dict(a=A(shape, 1), axes=v["axes"])
+
+
+def _ov_transpose(v, T="int"):
+    ax = v["axes"]
+    if ax is not None and sorted(ax) != list(range(len(v["a"]["shape"]))):
+        return INVALID
+    return AR(np.transpose(np_arr(v["a"], T), ax))
+
+
+vop("transpose", ["nmtools/array/view/transpose.hpp"], [ARR("a"), IA("axes", optional=True)], "view::transpose({a},{axes})",
+    [(2, False), (3, False), (2, True), (1, False)], _gv_transpose, _ov_transpose)
+
+
+def _gv_reshape(rng, dims, primary=None):
+    n, m, neg = dims
+    shape = primary or vshape(rng, n)
+    v = _g_reshape(rng, (len(shape), m, neg), shape)
+    return dict(a=A(shape, 1), dst=v["dst"])
+
+
+def _ov_reshape(v, T="int"):
+    r = _o_reshape(dict(src=v["a"]["shape"], dst=v["dst"]))
+    if r in (INVALID, NOTHING):
+        return r
+    return AR(np_arr(v["a"], T).reshape(v["dst"]))
+
+
+vop("reshape", ["nmtools/array/view/reshape.hpp"], [ARR("a"), IA("dst", signed=True, lo=-1)], "view::reshape({a},{dst})",
+    [(1, 2, False), (2, 1, False), (2, 2, True), (2, 3, False), (3, 2, True)], _gv_reshape, _ov_reshape)
+
+
+def _gv_bto(rng, dims, primary=None):
+    n, m = dims
+    if primary is None:
+        v = _g_bto(rng, (n, m))
+        v["a"] = [min(x, VEXT) for x in v["a"]]
+        v["b"] = [min(x, VEXT) for x in v["b"]]
+        if _o_bto(v) == NOTHING and rng.random() < 0.5:
+            v = _g_bto(rng, (n, m), v["a"])
+    else:
+        v = _g_bto(rng, (len(primary), max(m, len(primary))), list(primary))
+        v["b"] = [min(x, VEXT + 1) for x in v["b"]]
+    return dict(a=A(v["a"], 1), dst=v["b"])
+
+
+def _ov_bto(v, T="int"):
+    try:
+        return AR(np.broadcast_to(np_arr(v["a"], T), v["dst"]))
+    except ValueError:
+        return NOTHING
+
+
+vop("broadcast_to", ["nmtools/array/view/broadcast_to.hpp"], [ARR("a"), IA("dst")], "view::broadcast_to({a},{dst})",
+    [(1, 2), (2, 2), (2, 3), (1, 3)], _gv_bto, _ov_bto)
+
+
+def _gv_binary(rng, dims, primary=None):
+    n, m = dims
+    if primary is None:
+        a, b = _bcast_pair(rng, n, m, VEXT)
+    else:
+        v = _g_bshape(rng, (len(primary), m), list(primary))
+        a, b = v["a"], [min(x, VEXT) for x in v["b"]]
+    if rng.random() < 0.1:
+        b = list(b)
+        b[-1] = b[-1] % VEXT + 2
+    return dict(a=A(a, 1), b=A(b, 50))
+
+
+def _ov_binary(f):
+    def orc(v, T="int"):
+        try:
+            return AR(f(np_arr(v["a"], T), np_arr(v["b"], T)))
+        except ValueError:
+            return NOTHING
+    return orc
+
+
+vop("add", ["nmtools/array/view/ufuncs/add.hpp"], [ARR("a"), ARR("b")], "view::add({a},{b})",
+    [(2, 2), (1, 2), (3, 2), (2, 3)], _gv_binary, _ov_binary(np.add))
+vop("multiply", ["nmtools/array/view/ufuncs/multiply.hpp"], [ARR("a"), ARR("b")], "view::multiply({a},{b})",
+    [(2, 2), (2, 1), (3, 3)], _gv_binary, _ov_binary(np.multiply))
+vop("subtract", ["nmtools/array/view/ufuncs/subtract.hpp"], [ARR("a"), ARR("b")], "view::subtract({a},{b})",
+    [(2, 2), (1, 3)], _gv_binary, _ov_binary(np.subtract))
+
+
+def _gv_sum(rng, dims, primary=None):
+    n, mode = dims      # mode 0 scalar axis, 1 axes array (1 axis), 2 axes array (2 axes), 3 None
+    shape = primary or vshape(rng, n)
+    n = len(shape)
+    keep = int(rng.random() < 0.5)
+    if mode == 0:
+        return dict(a=A(shape, 1), axis=rng.randrange(-n, n), keepdims=keep)
+    if mode == 3:
+        return dict(a=A(shape, 1), axis=None, keepdims=keep)
+    k = min(mode, n)
+    ax = rng.sample(range(n), k)
+    ax = [x - n if rng.random() < 0.3 else x for x in ax]
+    return dict(a=A(shape, 1), axes=ax, keepdims=keep)
+
+
+def _ov_sum(v, T="int"):
+    a = np_arr(v["a"], T)
+    ax = tuple(v["axes"]) if "axes" in v else v["axis"]
+    n = a.ndim
+    l = list(ax) if isinstance(ax, tuple) else ([] if ax is None else [ax])
+    if any(x >= n or x < -n for x in l) or len({x % n for x in l}) != len(l):
+        return INVALID
+    return AR(np.sum(a, axis=ax, keepdims=bool(v["keepdims"])))
+
+
+vop("sum", ["nmtools/array/view/sum.hpp"], [ARR("a"), IS("axis", signed=True, lo=-4, optional=True), IS("keepdims", boolean=True)],
+    "view::sum({a},{axis},nm::None,nm::None,{keepdims})", [(2, 0), (3, 0), (2, 3), (1, 0)], _gv_sum, _ov_sum)
+vop("sum_axes", ["nmtools/array/view/sum.hpp"], [ARR("a"), IA("axes", signed=True, lo=-4), IS("keepdims", boolean=True)],
+    "view::sum({a},{axes},nm::None,nm::None,{keepdims})", [(2, 1), (3, 2), (3, 1)], _gv_sum, _ov_sum)
+
+
+def _gv_tile(rng, dims, primary=None):
+    n, m = dims
+    shape = primary or vshape(rng, n, 2 if n > 1 else 3)
+    return dict(a=A(shape, 1), reps=rshape(rng, m, 2))
+
+
+vop("tile", ["nmtools/array/view/tile.hpp"], [ARR("a"), IA("reps")], "view::tile({a},{reps})",
+    [(1, 2), (2, 2), (2, 1), (3, 2)], _gv_tile, lambda v, T="int": AR(np.tile(np_arr(v["a"], T), v["reps"])))
+
+
+def _gv_concat(rng, dims, primary=None):
+    n, none = dims
+    v = _g_concat(rng, (n, none), primary or vshape(rng, n))
+    if none and primary is None:
+        v["b"] = vshape(rng, rng.randint(1, 3))
+    return dict(a=A(v["a"], 1), b=A(v["b"], 50), axis=v["axis"])
+
+
+def _ov_concat(v, T="int"):
+    try:
+        return AR(np.concatenate([np_arr(v["a"], T), np_arr(v["b"], T)], axis=v["axis"]))
+    except ValueError:
+        return NOTHING
+
+
+vop("concatenate", ["nmtools/array/view/concatenate.hpp"], [ARR("a"), ARR("b"), IS("axis", optional=True)],
+    "view::concatenate({a},{b},{axis})", [(1, False), (2, False), (3, False), (2, True)], _gv_concat, _ov_concat)
+
+
+def _gv_matmul(rng, dims, primary=None):
+    v = _g_matmul(rng, dims, primary)
+    return dict(a=A(v["a"], 1), b=A(v["b"], 50))
+
+
+def _ov_matmul(v, T="int"):
+    try:
+        return AR(np.matmul(np_arr(v["a"], T), np_arr(v["b"], T)))
+    except ValueError:
+        return NOTHING
+
+
+vop("matmul", ["nmtools/array/view/matmul.hpp"], [ARR("a"), ARR("b")], "view::matmul({a},{b})",
+    [(2, 2), (3, 2), (2, 3), (2, 1)], _gv_matmul, _ov_matmul, weight=2)
+
+def _gv_slice(rng, dims, primary=None):
+    n, = dims
+    shape = primary or vshape(rng, n)
+    e = shape[0]
+    a = rng.randrange(e)
+    return dict(a=A(shape, 1), start=a, stop=rng.randint(a + 1, e))
+
+
+def _ov_slice(v, T="int"):
+    e = v["a"]["shape"][0]
+    if not (0 <= v["start"] < v["stop"] <= e):
+        return INVALID
+    return AR(np_arr(v["a"], T)[v["start"]:v["stop"], ...])
+
+
+vop("slice", ["nmtools/array/view/slice.hpp"], [ARR("a"), IS("start"), IS("stop")],
+    "view::slice({a},nmtools_tuple{{{start},{stop}}},nm::Ellipsis)", [(1,), (2,), (3,)], _gv_slice, _ov_slice)
+
+vop("flatten", ["nmtools/array/view/flatten.hpp"], [ARR("a")], "view::flatten({a})", [(1,), (2,), (3,)],
+    lambda rng, d, primary=None: dict(a=A(primary or vshape(rng, d[0]), 1)), lambda v, T="int": AR(np_arr(v["a"], T).flatten()))
+
+
+def _gv_expand(rng, dims, primary=None):
+    n, k = dims
+    shape = primary or vshape(rng, n)
+    return dict(a=A(shape, 1), axes=rng.sample(range(len(shape) + k), k))
+
+
+vop("expand_dims", ["nmtools/array/view/expand_dims.hpp"], [ARR("a"), IA("axes")], "view::expand_dims({a},{axes})",
+    [(1, 1), (2, 1), (2, 2)], _gv_expand, lambda v, T="int": AR(np.expand_dims(np_arr(v["a"], T), tuple(v["axes"]))))
+
+
+def _gv_repeat(rng, dims, primary=None):
+    n, mode = dims
+    shape = primary or vshape(rng, n, 2 if n > 2 else 3)
+    v = _g_repeat(rng, (len(shape), mode), shape)
+    return dict(a=A(shape, 1), repeats=v["repeats"], axis=v["axis"])
+
+
+vop("repeat", ["nmtools/array/view/repeat.hpp"], [ARR("a"), IS("repeats"), IS("axis", optional=True)], "view::repeat({a},{repeats},{axis})",
+    [(1, 0), (2, 0), (3, 0), (2, 1)], _gv_repeat, lambda v, T="int": AR(np.repeat(np_arr(v["a"], T), v["repeats"], axis=v["axis"])))
+
+
+def _gv_pad(rng, dims, primary=None):
+    n, = dims
+    shape = primary or vshape(rng, n, 2 if n > 2 else 3)
+    return dict(a=A(shape, 1), pad_width=[rng.randint(0, 1) for _ in range(2 * len(shape))])
+
+
+def _ov_pad(v, T="int"):
+    a = np_arr(v["a"], T)
+    w = v["pad_width"]
+    n = a.ndim
+    if len(w) != 2 * n:
+        return INVALID
+    return AR(np.pad(a, [(w[i], w[n + i]) for i in range(n)]))
+
+
+vop("pad", ["nmtools/array/view/pad.hpp"], [ARR("a"), IA("pad_width")], "view::pad({a},{pad_width})", [(1,), (2,), (3,)], _gv_pad, _ov_pad)
+
+
 # ----------------------------------------------------------------------------------------------------
 # candidate configurations of an operation (the probe decides which of them exist)
 # ----------------------------------------------------------------------------------------------------
@@ -1050,8 +1338,59 @@ def _is_cfg(a, base_kind, T="int"):
     return ArgCfg(k)
 
 
+IDX_ROT = ["fx", "ct", "dy", "clt", "sv", "tp", "lit", "raw", "cla", "hy", "clv"]
+ARR_MIXED = [("cs_fb", "ds_db"), ("ds_db", "cs_fb"), ("ls_hb", "fs_fb"), ("fs_fb", "ls_hb"), ("hs_hb", "raw"), ("raw", "hs_hb"),
+             ("nested", "ds_db"), ("fixed_nd", "dynamic_nd"), ("dynamic_nd", "hybrid_nd"), ("cs_db", "ls_db"), ("ls_fb", "cs_hb"),
+             ("hs_db", "ds_hb"), ("ds_fb", "hs_fb"), ("cm_ds_db", "ds_db"), ("cs_fb", "cm_cs_fb"), ("cm_ls_hb", "hs_hb"),
+             ("fs_hb", "cs_fb"), ("fs_db", "hybrid_nd"), ("ds_hb", "fixed_nd"), ("raw", "ds_db"), ("ds_db", "ls_fb")]
+
+
+def view_base_cfgs(o):
+    """every array kind once (index arguments rotate over their kinds) + the mixed operand pairs"""
+    arrs = [a for a in o.args if a.typ == "arr"]
+    n = len(ARR_KINDS) + (len(ARR_MIXED) if len(arrs) >= 2 else 0)
+    return candidates_view(o, base_only=True)[:n]
+
+
+def candidates_view(o, base_only=False):
+    arrs = [a for a in o.args if a.typ == "arr"]
+    out = []
+
+    def build(akinds, ik):
+        cfg = []
+        it = iter(akinds)
+        for a in o.args:
+            if a.typ == "arr":
+                cfg.append(ArgCfg(next(it)))
+            elif a.typ == "ia":
+                cfg.append(ArgCfg(ik, _t_for(a, ik)))
+            else:
+                cfg.append(_is_cfg(a, ik))
+        return cfg_str(cfg)
+
+    has_idx = any(a.typ != "arr" for a in o.args)
+    for i, k in enumerate(ARR_KINDS):
+        out.append(build([k] * len(arrs), IDX_ROT[i % len(IDX_ROT)]))
+    if len(arrs) >= 2:
+        for i, (k1, k2) in enumerate(ARR_MIXED):
+            out.append(build([k1, k2], IDX_ROT[i % len(IDX_ROT)]))
+    if has_idx and not base_only:
+        for k in ("ds_db", "cs_fb", "ls_hb", "fs_hb", "hs_db"):
+            for ik in IDX_ROT:
+                out.append(build([k] * len(arrs), ik))
+    seen = set()
+    res = []
+    for c in out:
+        if c not in seen:
+            seen.add(c)
+            res.append(c)
+    return res
+
+
 def candidates(o):
-    """list of configuration strings to probe for operation o (index family)"""
+    """list of configuration strings to probe for operation o"""
+    if o.family == "view":
+        return candidates_view(o)
     out = []
     ias = [a for a in o.args if a.typ == "ia"]
 
@@ -1167,10 +1506,10 @@ class Group:
         if c == "cx":
             return True
         for a, ac in zip(self.op.args, cfg_parse(c)):
+            if a.typ == "arr":
+                continue
             if ac.kind in CONST_KINDS or ac.kind == "tt":
                 return True
-            if a.typ == "arr":
-                return False
         return False
 
     def admits(self, inst, vals):
@@ -1394,7 +1733,9 @@ def make_group(gid, o, rng, supported_cfgs, nbaked, max_cfgs, pinned=(), dims=No
         while len(baked) < nbaked and tries < 200:
             tries += 1
             v = o.gen(rng, dims)
-            if o.oracle(v) == INVALID:
+            ex = o.oracle(v)
+            if ex == INVALID or ex == NOTHING or ex == ("V", []):
+                # constant configurations cannot carry a failing call (it does not compile)
                 continue
             if baked and not same_sig(o, baked[0], v):
                 continue
@@ -1409,6 +1750,12 @@ def make_group(gid, o, rng, supported_cfgs, nbaked, max_cfgs, pinned=(), dims=No
     cfgs = [c for c in supported_cfgs if cfg_valid_for(o, c, baked)]
     if all_cfgs:
         return Group(gid, o, dims, baked, sig, cfgs)
+    if o.family == "view":
+        base = [c for c in view_base_cfgs(o) if c in cfgs]
+        extra = [c for c in cfgs if c not in base]
+        rng.shuffle(extra)
+        chosen = base + extra[:max(0, max_cfgs - len(base))]
+        return Group(gid, o, dims, baked, sig, chosen)
     uniform = [c for c in cfgs if len(set(cfg_kinds(c).split("|"))) == 1 or c == "cx"]
     mixed = [c for c in cfgs if c not in uniform]
     # uniform configurations: one element type per kind, chosen by the seed
@@ -1419,9 +1766,18 @@ def make_group(gid, o, rng, supported_cfgs, nbaked, max_cfgs, pinned=(), dims=No
     for c in pinned:
         if c in cfgs and c not in chosen:
             chosen.append(c)
+    # every class signature (const / clipped / fixed / bounded / dynamic / maybe per argument) the allow-list has
+    # is represented under every seed, so that the key of a defect does not depend on the seed
     rng.shuffle(mixed)
-    room = max(0, max_cfgs - len(chosen))
-    chosen += mixed[:room]
+    seen_cls = {cfg_class(c) for c in chosen}
+    rest = []
+    for c in mixed:
+        if cfg_class(c) not in seen_cls:
+            seen_cls.add(cfg_class(c))
+            chosen.append(c)
+        else:
+            rest.append(c)
+    chosen += rest[:max(0, max_cfgs - len(chosen))]
     return Group(gid, o, dims, baked, sig, chosen)
 
 
